@@ -96,7 +96,7 @@ def run(ctx):
     keep = [ln for ln in open(hist) if '"state":"bad"' in ln]
     with open(hist, "w") as fh:
         fh.writelines(keep[:ctx.pick(400, 4000)])
-    g2 = ctx.gotest(".", c01.MAIN_FILES, "^TestVerifC01$", env={"VERIF_IN": hist, "VERIF_BADTAGS": badfile}, timeout=900)
+    g2 = ctx.gotest(".", c01.MAIN_FILES, "^TestVerifC01$", env={"VERIF_IN": hist, "VERIF_BADTAGS": badfile, "VERIF_NAMING": "split,mon2"}, timeout=900)
     if g2.summary is None and "panic:" in g2.out and "watchBackend" in g2.out:
         ctx.violation({"sub": "pipeline", "crash": True}, "the update loop crashed the process:\n" + g2.out[-3000:],
                       replay={"sub": "pipeline-crash", "case": None})
@@ -108,7 +108,7 @@ def run(ctx):
             % (s2["histories"], len(bad), s2["compared"], s2["fails"], g2.wall))
     ctx.cover("pipeline", traces_validated_against_impl=s2["histories"], evaluations=s2["compared"])
     ctx.take_failures(g2, "pipeline")
-    r3 = c01.validate_trace(ctx, s2["trace"], "recorded trace")
+    r3 = c01.validate_trace(ctx, s2["trace"], "recorded trace", split=True)
     if r3 is None:
         return
     if r3.ok:
